@@ -185,7 +185,7 @@ def restored(p, effs):
     return (True, 'restored %s from the copy saved before the first effect' % ', '.join(sorted(touched)))
 
 
-def analyse(c, chk, rule_plain, rule_restore, funcs=None, skip_keys=()):
+def analyse(c, chk, rule_plain, rule_restore, funcs=None, skip_keys=(), alloc_paths=False):
     ex = sym.Explorer(c.modules, max_visits=2, mod_sets=c.mod_sets, max_paths=200000)
     verified = set(REFUSERS)
     seen = set()
@@ -202,7 +202,7 @@ def analyse(c, chk, rule_plain, rule_restore, funcs=None, skip_keys=()):
                 handed_on = next((e for e in p.events if e.kind == 'call' and e.res == p.retval), None)
             if p.end != 'ret' or not (is_failure(fn, p.retval) or handed_on is not None):
                 continue
-            if c07.is_alloc_failure_path(p):
+            if c07.is_alloc_failure_path(p) and not alloc_paths:
                 continue
             nfail += 1
             effs = path_effects(c, fn, p, verified)
